@@ -278,11 +278,51 @@ fn main() {
 }
 
 
+GENERIC_REPLAY = r'''
+// native replay for a randomised entry point: call it many times; a byte position that never changes, an all-zero value
+// or a repeated value has probability < 2^-100 for a working generator and reproduces the finding
+use dryoc::types::*;
+fn sample(i: usize) -> Vec<u8> { let _ = i; %(expr)s }
+fn main() {
+    let n = 64;
+    let vals: Vec<Vec<u8>> = (0..n).map(sample).collect();
+    let len = vals[0].len();
+    let mut bad = false;
+    for pos in 0..len {
+        if vals.iter().all(|v| v[pos] == vals[0][pos]) { println!("MISMATCH byte position {} of {} is constant ({:#04x}) over {} calls", pos, len, vals[0][pos], n); bad = true; break; }
+    }
+    for i in 0..n { if vals[i].iter().all(|b| *b == 0) && len > 0 { println!("MISMATCH all-zero value"); bad = true; }
+        for j in 0..i { if vals[i] == vals[j] { println!("MISMATCH repeated value"); bad = true; } } }
+    if bad { std::process::exit(1); }
+    println!("agree");
+}
+'''
+
+EXPRS = {
+    "randombytes_buf": "dryoc::rng::randombytes_buf(300)",
+    "copy_randombytes": "{ let mut v = vec![0u8; 257]; dryoc::rng::copy_randombytes(&mut v); v }",
+    "PwHash::hash": "{ use dryoc::pwhash::*; let h: VecPwHash = PwHash::hash(&b\"pw\".to_vec(), Config::interactive().with_salt_length(24).with_opslimit(1).with_memlimit(8192)).unwrap(); let (_h, salt, _c) = h.into_parts(); salt }",
+    "crypto_secretbox_keygen": "dryoc::classic::crypto_secretbox::crypto_secretbox_keygen().to_vec()",
+    "crypto_kdf_keygen": "dryoc::classic::crypto_kdf::crypto_kdf_keygen().to_vec()",
+    "crypto_box_keypair": "dryoc::classic::crypto_box::crypto_box_keypair().1.to_vec()",
+    "crypto_kx_keypair": "dryoc::classic::crypto_kx::crypto_kx_keypair().1.to_vec()",
+    "crypto_sign_keypair": "dryoc::classic::crypto_sign::crypto_sign_keypair().1[..32].to_vec()",
+    "crypto_secretstream_xchacha20poly1305_init_push": "{ use dryoc::classic::crypto_secretstream_xchacha20poly1305::*; let mut st = State::new(); let mut h = [0u8; 24]; crypto_secretstream_xchacha20poly1305_init_push(&mut st, &mut h, &[1u8; 32]); h.to_vec() }",
+    "crypto_box_seal": "{ let (pk, _sk) = dryoc::classic::crypto_box::crypto_box_keypair(); let mut c = vec![0u8; 48 + 3]; dryoc::classic::crypto_box::crypto_box_seal(&mut c, b\"abc\", &pk).unwrap(); c[..32].to_vec() }",
+}
+
+
 def replay(v, scratch):
-    """Native replay: call the entry point twice; equal 'random' values (probability 2^-128 for a real generator) reproduce."""
+    """Native replay: call the entry point repeatedly; constant bytes / repeats (probability < 2^-100 for a real generator) reproduce."""
     site = v["site"]
     if site in REPLAY:
-        outs = runner.native_run(scratch, "c11", REPLAY[site], features=["base64"])
-        v["replay_input"] = {"program": REPLAY[site]}
-        return any(rc == 1 and "MISMATCH" in o for _, rc, o in outs), "; ".join("%s rc=%s %s" % (p, rc, o.strip()[-300:]) for p, rc, o in outs)
-    return None, "no native replay template for site %s" % site
+        main = REPLAY[site]
+        feats = ["base64"]
+    elif site in EXPRS:
+        main = GENERIC_REPLAY % dict(expr=EXPRS[site])
+        feats = []
+    else:
+        return None, "no native replay template for site %s" % site
+    outs = runner.native_run(scratch, "c11", main, features=feats)
+    v["replay_input"] = {"program": main}
+    return any(rc == 1 and "MISMATCH" in o for _, rc, o in outs), "; ".join("%s rc=%s %s" % (p, rc, o.strip()[-300:]) for p, rc, o in outs)
